@@ -515,12 +515,10 @@ func c2Reflect(c *Ctx) {
 	}
 	er := c.Method(CorePath, "jsonEncoder", "encodeReflected")
 	if c.Anchor("R2.8", "zapcore.jsonEncoder.encodeReflected", er != nil) {
-		var reset, encode, trim ssa.Instruction
-		for _, cl := range Calls(er) {
+		var encode, trim ssa.Instruction
+		for _, cl := range CallsDeep(er) {
 			if f := CalleeFunc(cl); f != nil {
 				switch f.Name() {
-				case "resetReflectBuf":
-					reset = cl
 				case "Encode":
 					encode = cl
 				case "TrimNewline":
@@ -528,17 +526,30 @@ func c2Reflect(c *Ctx) {
 				}
 			}
 		}
-		ok := reset != nil && encode != nil && trim != nil && Dominates(reset, encode) && Dominates(encode, trim)
+		// before Encode, on every path, the scratch buffer is either Reset or freshly taken from the pool
+		prepared := func(i ssa.Instruction) bool {
+			switch x := i.(type) {
+			case *ssa.Call:
+				return IsCallTo(x, "(*go.uber.org/zap/buffer.Buffer).Reset") && strings.HasSuffix(Desc(Args(x)[0]), ".reflectBuf")
+			case *ssa.Store:
+				return strings.HasSuffix(Desc(x.Addr), ".reflectBuf") && isFreshBuffer(x.Val)
+			}
+			return false
+		}
+		ok := encode != nil && trim != nil && Dominates(encode, trim) && !ExistsPath(er, nil, func(i ssa.Instruction) bool { return i == encode }, prepared)
 		okNull := false
 		for _, r := range Returns(er) {
 			if Desc(RetVals(r)[0]) == "nullLiteralBytes" {
-				okNull = containsS(AtomStrings(Guards(r)), "obj == nil")
+				okNull = containsS(AtomStrings(Guards(r)), er.Params[1].Name()+" == nil")
 			}
 		}
-		c.Check(ok && okNull, "R2.8", er.String(), "reset-encode-trim", er.Pos(), "nil short-circuits to null; otherwise the scratch buffer is reset, the value encoded, and exactly the trailing newline trimmed")
+		c.Check(ok && okNull, "R2.8", er.String(), "reset-encode-trim", er.Pos(), "nil short-circuits to null; otherwise the scratch buffer is reset (or freshly allocated), the value encoded, and exactly the trailing newline trimmed")
 	}
 	rr := c.Method(CorePath, "jsonEncoder", "resetReflectBuf")
-	if c.Anchor("R2.8", "zapcore.jsonEncoder.resetReflectBuf", rr != nil) {
+	if rr == nil {
+		rr = er // inlined into its only caller
+	}
+	if rr != nil {
 		okReset := false
 		for _, cl := range Calls(rr) {
 			if IsCallTo(cl, "(*go.uber.org/zap/buffer.Buffer).Reset") {
